@@ -3,6 +3,7 @@
 * This file is part of BitSerializer library, licensed under the MIT license.  *
 *******************************************************************************/
 #include "msgpack_readers.h"
+#include <algorithm>
 #include <cstring>
 #include "bitserializer/conversion_detail/memory_utils.h"
 
@@ -1258,7 +1259,8 @@ namespace BitSerializer::MsgPack::Detail
 			}
 
 			mBuffer.clear();
-			mBuffer.reserve(remainingSize);
+			// The declared size comes from the input and is not yet confirmed by data, so don't reserve too much at once
+			mBuffer.reserve(std::min<size_t>(remainingSize, 0x10000));
 			while (remainingSize != 0)
 			{
 				if (const std::string_view chunk = mBinaryStreamReader.ReadByChunks(remainingSize); !chunk.empty())
